@@ -250,12 +250,45 @@ fn kind_name(k: &ErrorKind) -> String {
     }
 }
 
+/// Error values of failed calls stay alive (as they would in a caller that is still looking at them) until the descriptor
+/// table has been inspected; see `release_errors`.
+static KEPT_ERRORS: Mutex<Vec<Error>> = Mutex::new(Vec::new());
+/// ids of failed C calls whose pathrs_errorinfo() has not been fetched yet (fetched after the table inspection)
+static PENDING_CERR: Mutex<Vec<c_int>> = Mutex::new(Vec::new());
+
 fn err_obs(e: Error) -> Obs {
     let k = e.kind();
     let mut msg = e.to_string();
-    let mut src: &dyn std::error::Error = &e;
-    while let Some(n) = src.source() { msg.push_str(": "); msg.push_str(&n.to_string()); src = n; }
+    {
+        let mut src: &dyn std::error::Error = &e;
+        while let Some(n) = src.source() { msg.push_str(": "); msg.push_str(&n.to_string()); src = n; }
+    }
+    if let Ok(mut g) = KEPT_ERRORS.lock() { g.push(e); }
     Obs { ok: false, kind: Some(kind_name(&k)), errno: kind_errno(&k), msg: Some(msg), ..Default::default() }
+}
+
+/// After the descriptor table has been looked at: drop the kept Rust errors, fetch (twice) the error of a failed C call.
+fn release_errors(o: &mut Obs) {
+    if let Ok(mut g) = KEPT_ERRORS.lock() { g.clear(); }
+    let pending: Vec<c_int> = PENDING_CERR.lock().map(|mut g| std::mem::take(&mut *g)).unwrap_or_default();
+    for ret in pending {
+        unsafe {
+            let p = pathrs_errorinfo(ret);
+            if !p.is_null() {
+                let desc = if (*p).description.is_null() { String::new() } else { CStr::from_ptr((*p).description).to_string_lossy().into_owned() };
+                let errno = (*p).saved_errno;
+                pathrs_errorinfo_free(p);
+                let p2 = pathrs_errorinfo(ret);
+                let second_null = p2.is_null();
+                if !p2.is_null() { pathrs_errorinfo_free(p2); }
+                if o.ret == Some(ret as i64) {
+                    o.errno = Some(errno as i32);
+                    o.msg = Some(desc.clone());
+                    o.cerr = Some(CErr { errno, desc, second_null });
+                }
+            }
+        }
+    }
 }
 
 fn ok_fd(st: &mut State, op: &Op, fd: OwnedFd) -> Obs {
@@ -303,20 +336,7 @@ fn c_ret(st: &mut State, op: &Op, ret: c_int, returns_fd: bool) -> Obs {
     } else {
         o.ok = false;
         o.kind = Some("CError".into());
-        unsafe {
-            let p = pathrs_errorinfo(ret);
-            if !p.is_null() {
-                let desc = if (*p).description.is_null() { String::new() } else { CStr::from_ptr((*p).description).to_string_lossy().into_owned() };
-                let errno = (*p).saved_errno;
-                pathrs_errorinfo_free(p);
-                let p2 = pathrs_errorinfo(ret);
-                let second_null = p2.is_null();
-                if !p2.is_null() { pathrs_errorinfo_free(p2); }
-                o.errno = Some(errno as i32);
-                o.msg = Some(desc.clone());
-                o.cerr = Some(CErr { errno, desc, second_null });
-            }
-        }
+        if let Ok(mut g) = PENDING_CERR.lock() { g.push(ret); }
     }
     o
 }
@@ -614,6 +634,7 @@ fn run_op(st: &mut State, op: &Op) -> Obs {
         obs.fds_before = before;
         obs.fds_after = fd_table();
     }
+    release_errors(&mut obs);
     obs
 }
 
@@ -651,28 +672,54 @@ fn main() {
             apply_setup(&spec.setup);
             let mut warm = Vec::new();
             for op in &spec.warmup { warm.push(run_op(&mut st, op)); }
-            let before = fd_table();
-            st.defer = true;
-            unsafe { libc::raise(libc::SIGSTOP) }; // BEGIN
-            *PANIC_INFO.lock().unwrap() = None;
-            let r = panic::catch_unwind(AssertUnwindSafe(|| run_op_inner(&mut st, &spec.op)));
-            unsafe { libc::raise(libc::SIGSTOP) }; // END
-            let mut obs = match r {
-                Ok(o) => o,
-                Err(_) => Obs { ok: false, panic: Some(PANIC_INFO.lock().unwrap().clone().unwrap_or_else(|| "unknown panic".into())), ..Default::default() },
+            let decoy = spec.setup.thread_decoy.clone();
+            let body = move |mut st: State| -> State {
+                let before = fd_table();
+                st.defer = true;
+                unsafe { libc::raise(libc::SIGSTOP) }; // BEGIN
+                *PANIC_INFO.lock().unwrap() = None;
+                let r = panic::catch_unwind(AssertUnwindSafe(|| run_op_inner(&mut st, &spec.op)));
+                unsafe { libc::raise(libc::SIGSTOP) }; // END
+                let mut obs = match r {
+                    Ok(o) => o,
+                    Err(_) => Obs { ok: false, panic: Some(PANIC_INFO.lock().unwrap().clone().unwrap_or_else(|| "unknown panic".into())), ..Default::default() },
+                };
+                st.defer = false;
+                if obs.ok && obs.fd.is_none() {
+                    if let Some(h) = st.handles.get(spec.op.keep.as_deref().unwrap_or("ret")) { obs.fd = Some(fd_info(h.as_raw_fd())); }
+                }
+                obs.fds_before = before;
+                obs.fds_after = fd_table();
+                release_errors(&mut obs);
+                let resp = Response { obs: warm.into_iter().chain(std::iter::once(obs)).collect() };
+                let s = serde_json::to_string(&resp).unwrap();
+                let mut out = std::io::stdout();
+                let _ = out.write_all(s.as_bytes());
+                let _ = out.write_all(b"\n");
+                let _ = out.flush();
+                st
             };
-            st.defer = false;
-            if obs.ok && obs.fd.is_none() {
-                if let Some(h) = st.handles.get(spec.op.keep.as_deref().unwrap_or("ret")) { obs.fd = Some(fd_info(h.as_raw_fd())); }
-            }
-            obs.fds_before = before;
-            obs.fds_after = fd_table();
-            let resp = Response { obs: warm.into_iter().chain(std::iter::once(obs)).collect() };
-            let s = serde_json::to_string(&resp).unwrap();
-            let mut out = std::io::stdout();
-            let _ = out.write_all(s.as_bytes());
-            let _ = out.write_all(b"\n");
-            let _ = out.flush();
+            st = match decoy {
+                None => body(st),
+                Some(d) => {
+                    // leader: look-alike descriptors on the numbers the thread will get from now on
+                    // "first|rest": the first free number gets `first` (where a resolver would keep its copy of the root), the others `rest`
+                    let (first, rest) = match d.split_once('|') { Some((a, b)) => (cstr(a), cstr(b)), None => (cstr(&d), cstr(&d)) };
+                    let mut nums = Vec::new();
+                    for i in 0..48 {
+                        let c = if i == 0 { &first } else { &rest };
+                        let fd = unsafe { libc::open(c.as_ptr(), libc::O_PATH | libc::O_DIRECTORY | libc::O_CLOEXEC) };
+                        if fd < 0 { die("cannot open the look-alike directory"); }
+                        nums.push(fd);
+                    }
+                    let h = std::thread::spawn(move || {
+                        if unsafe { libc::unshare(libc::CLONE_FILES) } != 0 { die("unshare(CLONE_FILES) failed"); }
+                        for n in &nums { unsafe { libc::close(*n) }; }
+                        body(st)
+                    });
+                    match h.join() { Ok(st) => st, Err(_) => die("operation thread died") }
+                }
+            };
         }
         _ => die("unknown mode"),
     }
